@@ -185,6 +185,10 @@ func (impl Implementation) Dhseqr(job lapack.SchurJob, compz lapack.SchurComp, n
 		panic(shortWr)
 	case len(wi) < n:
 		panic(shortWi)
+	case ilo > 0 && h[ilo*ldh+ilo-1] != 0:
+		panic(notIsolated)
+	case ihi < n-1 && h[(ihi+1)*ldh+ihi] != 0:
+		panic(notIsolated)
 	}
 
 	const (
